@@ -132,6 +132,46 @@ def refinement_runs(b, d, tier):
     # the premises of C04_prints_admitted_core: parses, accepted, closed, core_src_b on the SOURCE (init_linear derived)
     core = S.run_tool(b.model, "c04core", cases, timeout=1800)
     core_ok = {i for i, _ in d.programs if core.get(i, "").split("\t")[0] == "CORE-OK"}
+    # the premises of C04_prints_admitted_drop: parses, accepted, closed, no split, one provider name per process
+    # (drop allowed): every Async run is a run of Sax.v with its structural rules
+    dropv = S.run_tool(b.model, "c04drop", cases, timeout=1800)
+    drop_ok = {i for i, _ in d.programs if dropv.get(i, "").split("\t")[0] == "DROP-OK"}
+    uses_drop = {i for i, t in d.programs if re.search(r"\bdrop\b", R.strip_comments(t))}
+    # the premises of C04_prints_admitted_all: parses, accepted, closed, one provider name per declaration
+    # (drop AND split allowed): every run in the two polarized modes is a run of Sax.v with its structural rules
+    allv = S.run_tool(b.model, "c04all", cases, timeout=1800)
+    all_ok = {i for i, _ in d.programs if allv.get(i, "").split("\t")[0] == "ALL-OK"}
+    uses_split = {i for i, t in d.programs if re.search(r"\bsplit\b", R.strip_comments(t))}
+    split_runs_compared = 0
+    for i, t in d.programs:
+        if i not in all_ok or i not in uses_split:
+            continue
+        ref = d.model[i]["async"].get("0")
+        if ref is None:
+            continue
+        for cfg, r in d.impl[i].items():
+            if cfg[0] in ("async", "sync") and not r["panic"] and r["verdict"] is not None:
+                split_runs_compared += 1
+                if collections.Counter(r["prints"]) != collections.Counter(ref["order"]):
+                    r2 = P.confirm(b, t, cfg, lambda res, o=ref["order"]: collections.Counter(res["prints"]) != collections.Counter(o))
+                    if r2 is not None:
+                        violations.append(P.violation(PROP, "result", "run of a program with split prints a multiset the SAX semantics (with contraction) does not admit: observed %s, SAX-admitted %s" % (r2["prints"], ref["order"]),
+                                                      i, t, cfg, {"prints": r2["prints"]}, {"prints": ref["order"], "must_precede": []}))
+    drop_async_compared = 0
+    for i, t in d.programs:
+        if i not in drop_ok or i not in uses_drop:
+            continue
+        ref = d.model[i]["async"].get("0")
+        if ref is None:
+            continue
+        for cfg, r in d.impl[i].items():
+            if cfg[0] == "async" and not r["panic"] and r["verdict"] is not None:
+                drop_async_compared += 1
+                if collections.Counter(r["prints"]) != collections.Counter(ref["order"]):
+                    r2 = P.confirm(b, t, cfg, lambda res, o=ref["order"]: collections.Counter(res["prints"]) != collections.Counter(o))
+                    if r2 is not None:
+                        violations.append(P.violation(PROP, "result", "run of a program with drop prints a multiset the SAX semantics (with weakening) does not admit: observed %s, SAX-admitted %s" % (r2["prints"], ref["order"]),
+                                                      i, t, cfg, {"prints": r2["prints"]}, {"prints": ref["order"], "must_precede": []}))
     prem_ok_not_checked = sorted(i for i in prem_ok if i in inv_fail_all)
     lin_without_premises = sorted(i for i, _ in d.programs if lin[i] and i not in prem_ok)
     sync_compared = 0
@@ -161,6 +201,16 @@ def refinement_runs(b, d, tier):
     cov = {"schedules": seeds,
            "programs_satisfying_premises_of_C04_prints_admitted (closed, init_linear: every run covered by the theorem, async and sync)": len(prem_ok),
            "programs_satisfying_premises_of_C04_prints_admitted_core (parses, accepted, closed, core_src_b on the source: no premise about the annotated program)": len(core_ok),
+           "programs_satisfying_premises_of_C04_prints_admitted_all (one provider name per declaration; drop and split allowed)": len(all_ok),
+           "of_which_use_split": len(all_ok & uses_split),
+           "accepted_programs_outside (multi-name declarations: correspondence only)": sum(1 for i, _ in d.programs if i not in all_ok),
+           "implementation_runs_of_split_programs_compared (async+sync)": split_runs_compared,
+           "drop_ok_not_all_ok (would contradict the inclusion of the fragments)": sorted(drop_ok - all_ok)[:10],
+           "programs_satisfying_premises_of_C04_prints_admitted_drop (weakening fragment: no split, one provider name per process)": len(drop_ok),
+           "of_which_use_drop": len(drop_ok & uses_drop),
+           "programs_using_drop_outside_that_fragment (split / multi-provider as well: correspondence only)": len(uses_drop - drop_ok),
+           "implementation_async_runs_of_drop_programs_compared": drop_async_compared,
+           "core_ok_not_drop_ok (would contradict core ⊆ weakening fragment)": sorted(core_ok - drop_ok)[:10],
            "core_ok_but_init_linear_check_fails (would contradict init_linear_parsed)": sorted(core_ok - prem_ok)[:10],
            "init_linear_holds_but_source_not_core (e.g. an empty case)": sorted(prem_ok - core_ok)[:10],
            "linear_fragment_programs_not_satisfying_them (covered by the checked runs and the correspondence only)": lin_without_premises[:20],
